@@ -11,11 +11,13 @@ and `fixes/C11-race-cancel-orphan.patch` applied, network/network.py:
   `PeerInitializedEvent`; `except CancelledError: disconnect` around all of it);
 * `_make_indirect_connection` (both waiters registered *before* ConnectToPeer is sent; `asyncio.wait` with
   timeout; `finally`: every waiter that is still pending is cancelled);
-* `ListeningConnection.accept` + the `PeerPierceFirewall` arm of `on_peer_accepted` (CONNECTED notification,
-  registry append, known ticket: finalise, `PeerInitializedEvent`, complete the waiter *if it is still
-  pending*; otherwise disconnect) and the completion loop of `on_message_received` for `CannotConnect`;
+* `ListeningConnection.accept` + the `PeerPierceFirewall` arm of `on_peer_accepted` (registered when CONNECTED is
+  reported — `_on_peer_connection_state_changed`, before the listeners of that notification run, 16670c8 —, then
+  known ticket: finalise, `PeerInitializedEvent`, complete the waiter *if it is still pending*; otherwise
+  disconnect) and the completion loop of `on_message_received` for `CannotConnect`;
 * `DataConnection.connect` / `disconnect` (network/connection.py) as far as they notify listeners:
-  CONNECTING before `open_connection`, CONNECTED after it, CLOSING before and CLOSED after the socket is
+  CONNECTING before `open_connection` (inside the `try` whose `except CancelledError` closes the connection,
+  f2f303e), CONNECTED after it, CLOSING before and CLOSED after the socket is
   closed — `disconnect()` always runs to CLOSED, also when its task is cancelled inside a notification.
 
 One request.  `S` is its control state plus the three waiter tables and the connection objects it can
@@ -28,6 +30,14 @@ delivered meanwhile.  So a phase `n…` / `…Closing` / `…Closed` means "the 
 notification", and `Op.note n` is "the listeners of notification `n` have returned" (when no listener
 suspends, the harness sends the `note` right away: the model then takes the same path in smaller steps).
 One `Op` is one completion the environment delivers; `step` runs everything up to the next suspension.
+
+**The wire** (second half of this file, `X`).  "Initialised, usable" is judged at the far end: a peer that follows the
+protocol (docs/source/SOULSEEK.rst, "Obfuscation": on an obfuscated port the peer-init messages are obfuscated;
+afterwards only a `P` connection stays obfuscated, `D` and `F` go on in clear) must be able to read the PeerInit we
+wrote and whatever follows, and we what it writes.  `X` carries, next to `S`, what `PeerConnection.obfuscated`,
+`connection_state` and the reader task of each connection object of the request are, and in which encoding PeerInit
+went out — each set exactly where the code sets it (`send_message` encodes with the flag *as it is at that moment*;
+`_finalize_peer_connection` → `set_connection_state` clears the flag for `D` / `F`, starts the reader for `P` / `D`).
 -/
 namespace AioslskVerif.PeerConnect
 
@@ -66,7 +76,7 @@ inductive IPh
 the peer has sent PeerPierceFirewall with the request's ticket -/
 inductive APh
   | none
-  | nConnected  -- socket open, not yet registered; listeners are being told CONNECTED
+  | nConnected  -- socket open, registered (when CONNECTED is reported); listeners are being told CONNECTED
   | nInit       -- registered, ticket known and waiter pending: finalised, listeners told PeerInitializedEvent
   | nClosing    -- nobody waits for it (any more): `disconnect()`, listeners told CLOSING
   | nClosed     -- … CLOSED
@@ -113,11 +123,13 @@ inductive Op
   | connectOk (initOk : Bool)    -- open_connection returns; writing PeerInit will succeed / fail
   | connectRefused
   | connectTimeout
-  | pierce                       -- a peer connects to us and sends PeerPierceFirewall with the request's ticket
+  | pierce (obf : Bool)          -- a peer connects to our clear / obfuscated listening port and sends
+                                 --   PeerPierceFirewall with the request's ticket (encoded as that port requires)
   | cannotConnect                -- the server sends CannotConnect with the request's ticket
   | indirectTimeout              -- PEER_INDIRECT_CONNECT_TIMEOUT expires
   | cancelRequest
   | note (n : Note)
+  | probe                        -- the caller uses the connection it was given: one message each way
   deriving DecidableEq, Repr
 
 /-- the task of the direct attempt has not finished -/
@@ -212,7 +224,7 @@ def note (s : S) : Note → Option S
     | _ => none
   | .dClosed => if s.d = .fClosed ∨ s.d = .cClosed then some (directClosed s) else none
   | .aConnected =>
-    -- registered; the pierce message is read: known ticket with a pending waiter → finalise and announce;
+    -- the pierce message is read: known ticket with a pending waiter → finalise and announce;
     -- otherwise (unknown ticket, waiter done) → disconnect
     if s.a = .nConnected then some { s with a := if s.tw then .nInit else .nClosing } else none
   | .aInit =>
@@ -240,7 +252,7 @@ def step (s : S) : Op → Option S
   | .connectRefused | .connectTimeout =>
     -- `connect()`: `except Exception: disconnect(CONNECT_FAILED)`, there is no socket
     if s.d ≠ .opening then none else some { s with d := .fClosing }
-  | .pierce =>
+  | .pierce _ =>
     -- one incoming connection is handled at a time in this model
     if s.a ≠ .none then none else some { s with a := .nConnected }
   | .cannotConnect =>
@@ -264,6 +276,7 @@ def step (s : S) : Op → Option S
         -- parked in the `gather` for the loser: the gather passes the cancellation on to the loser
         some (gathered (cancelIndirect (cancelDirect s)))
   | .note n => note s n
+  | .probe => if s.res = .returnedD ∨ s.res = .returnedI then some s else none
 
 /-- `create_peer_connection` up to its first suspension; `lookup`: ip/port were not given -/
 def init (mode : Mode) (lookup srvFail : Bool) : S :=
@@ -277,6 +290,98 @@ def init (mode : Mode) (lookup srvFail : Bool) : S :=
 def stepT (s : S) (op : Op) : S := (step s op).getD s
 
 def run (mode : Mode) (lookup srvFail : Bool) (ops : List Op) : S := ops.foldl stepT (init mode lookup srvFail)
+
+/-! ## The wire -/
+
+/-- connection type (`PeerConnectionType`) -/
+inductive CT | peer | distributed | file
+  deriving DecidableEq, Repr
+
+/-- what one `PeerConnection` object does to the bytes (network/connection.py) -/
+structure Wire where
+  obf : Bool      -- `obfuscated`: `encode_message_data` obfuscates what is sent, `_read_message` de-obfuscates what is read
+  fin : Bool      -- `connection_state` is no longer AWAITING_INIT
+  reader : Bool   -- the message reader task runs (`set_connection_state(ESTABLISHED)` → `start_reader_task`)
+  deriving DecidableEq, Repr
+
+/-- `PeerConnection(…, obfuscated=o)` -/
+def Wire.fresh (o : Bool) : Wire := { obf := o, fin := false, reader := false }
+
+/-- `_finalize_peer_connection` (network.py) → `PeerConnection.set_connection_state`: `F` → NEGOTIATING_TRANSFER (no
+reader: the transfer code reads the socket itself), `P` / `D` → ESTABLISHED (reader started); leaving AWAITING_INIT
+clears `obfuscated` for every type but `P` -/
+def finalize (t : CT) (w : Wire) : Wire := { obf := w.obf && t == .peer, fin := true, reader := t != .file }
+
+/-- one request and the wire-level state of the connection objects it can be given -/
+structure X where
+  typ : CT            -- configuration: the requested connection type
+  dialObf : Bool      -- configuration: the port the direct attempt dials (`select_port` / the caller) is an obfuscated one
+  s : S
+  dw : Wire           -- the outgoing connection of the direct attempt
+  initEnc : Option Bool   -- PeerInit has been written: obfuscated (`some true`) / in clear (`some false`)
+  aObf : Bool         -- the connection the accept task is handling came in on our obfuscated listening port
+  aw : Wire           -- … its connection object (`ListeningConnection.accept`: `obfuscated=self.obfuscated`)
+  iObf : Bool         -- the same two for the pierced connection that was handed to the request
+  iw : Wire
+  deriving DecidableEq, Repr
+
+/-- what the step `op` (taken from `x.s`) does to the connection objects -/
+def wireStep (x : X) : Op → X
+  | .note .dConnected =>
+    -- `_make_direct_connection` after `connect()`: `send_message(PeerInit)` — encoded with the flag as it is now —
+    -- and only then `_finalize_peer_connection`
+    if x.s.d = .nConnectedOk then { x with initEnc := some x.dw.obf, dw := finalize x.typ x.dw } else x
+  | .pierce o => if x.s.a = .none then { x with aObf := o, aw := Wire.fresh o } else x
+  | .note .aConnected =>
+    -- `on_peer_accepted`: the pierce message has been read (AWAITING_INIT, flag of the listening port); known ticket
+    -- with a pending waiter: type and user name are taken from the waiter, `_finalize_peer_connection`
+    if x.s.a = .nConnected ∧ x.s.tw = true then { x with aw := finalize x.typ x.aw } else x
+  | .note .aInit =>
+    -- the waiter is completed with this very object
+    if x.s.a = .nInit ∧ x.s.tw = true then { x with iObf := x.aObf, iw := x.aw } else x
+  | _ => x
+
+def xstep (x : X) (op : Op) : Option X := (step x.s op).map fun s' => { wireStep x op with s := s' }
+
+def xinit (t : CT) (dialObf : Bool) (mode : Mode) (lookup srvFail : Bool) : X :=
+  -- (with a look-up the outgoing connection object is only created when the address arrives: with this flag)
+  { typ := t, dialObf := dialObf, s := init mode lookup srvFail, dw := Wire.fresh dialObf, initEnc := none,
+    aObf := false, aw := Wire.fresh false, iObf := false, iw := Wire.fresh false }
+
+def xstepT (x : X) (op : Op) : X := (xstep x op).getD x
+
+def xrun (t : CT) (dialObf : Bool) (mode : Mode) (lookup srvFail : Bool) (ops : List Op) : X :=
+  ops.foldl xstepT (xinit t dialObf mode lookup srvFail)
+
+/-- `_handle_connect_to_peer` once `connect()` has returned: PeerPierceFirewall is sent — encoded with the flag as it is
+then — and after that the connection is finalised.  Returns (how the pierce message went out, the connection object). -/
+def connectBackWire (t : CT) (portObf : Bool) : Bool × Wire :=
+  let w := Wire.fresh portObf
+  (w.obf, finalize t w)
+
+/-! the protocol's side of it (docs/source/SOULSEEK.rst, "Obfuscation") -/
+
+/-- a peer that was reached on / reached us on a port with obfuscation `portObf` goes on obfuscated exactly when the
+connection is a `P` connection -/
+def wireRule (t : CT) (portObf : Bool) : Bool := portObf && t == .peer
+
+/-- the peer can read what we send on the connection object -/
+def txOK (t : CT) (portObf : Bool) (w : Wire) : Bool := w.fin && w.obf == wireRule t portObf
+
+/-- we read what the peer sends: same encoding, and the bytes go where the type says — to the reader task for `P` / `D`,
+to the caller (`receive_transfer_ticket`, …) for `F` -/
+def rxOK (t : CT) (portObf : Bool) (w : Wire) : Bool :=
+  w.fin && w.obf == wireRule t portObf && w.reader == (t != .file)
+
+/-- the outcome of `probe` for the connection the request returned: (the peer's message is received by us, our message
+is readable at the far end).  A peer that could not read PeerInit has no connection with us at all. -/
+def usable (x : X) : Option (Bool × Bool) :=
+  match x.s.res with
+  | .returnedD =>
+    let known := x.initEnc == some x.dialObf
+    some (known && rxOK x.typ x.dialObf x.dw, known && txOK x.typ x.dialObf x.dw)
+  | .returnedI => some (rxOK x.typ x.iObf x.iw, txOK x.typ x.iObf x.iw)
+  | _ => none
 
 /-- `Network.select_port` (network.py:504-522): 0 = port not available -/
 def selectPort (preferObfuscated : Bool) (port obfuscatedPort : Nat) : Nat × Bool :=
